@@ -327,6 +327,27 @@ fn want_scope_while(fx: &mut Fx) -> R {
     Ok(())
 }
 
+fn want_while_scope_while(fx: &mut Fx) -> R {
+    // while(c10){scope{while(c11){L4}}} — the inner loop's counter is created in (and dies with)
+    // the scope; the outer loop's counter in the caller's scope counts outer passes only
+    fx.iters_present = true;
+    e(INIT, 10)?;
+    e(REQ, 10)?;
+    e(INIT, 10)?;
+    while ans(10)? {
+        e(INIT, 11)?;
+        e(INIT, 4)?;
+        e(REQ, 11)?;
+        e(REQ, 4)?;
+        e(INIT, 11)?;
+        while ans(11)? {
+            x(fx, 4, true, false)?;
+        }
+        fx.iters += 1;
+    }
+    Ok(())
+}
+
 /// Drive one tree through the real `Configuration::run` and compare with its reference semantics.
 fn run_tree(want_fn: fn(&mut Fx) -> R, faults: &[(u8, u8)], config: Configuration<TagP>) {
     run_tree_n(want_fn, faults, config, 2)
@@ -447,4 +468,11 @@ pub fn h_c03_nested_while() {
 #[cfg_attr(kani, kani::unwind(4))]
 pub fn h_c03_scope_while() {
     run_tree(want_scope_while, &[(EXEC, 4)], Configuration::new(Scope::new_with(|_| Ok(()), Loop::new(cond::<10>(), leaf::<4>()), |_, _| Ok(()))));
+}
+
+/// @h tier=quick bound="tree: while(c10){scope{while(c11){L1}}} — <= 1x1 passes (both scripts symbolic): a loop inside a scope inside a loop has its own counter, the outer counter counts outer passes only; fault in {none, execute L1}" unwind=4 cost=9 mem=24 timeout=1200 reclimit="<mahf::components::(control_flow::)?Loop<.*> as .*Component<.*>>::(init|require|execute)=2;<mahf::components::(control_flow::)?Scope<.*> as .*Component<.*>>::(init|require|execute)=1;mahf::state::(registry::)?StateRegistry::<.*>::find(_mut)?::<.*>=3"
+#[cfg_attr(kani, kani::proof)]
+#[cfg_attr(kani, kani::unwind(4))]
+pub fn h_c03_while_scope_while() {
+    run_tree_n(want_while_scope_while, &[(EXEC, 4)], Configuration::new(Loop::new(cond::<10>(), Scope::new_with(|_| Ok(()), Loop::new(cond::<11>(), leaf::<4>()), |_, _| Ok(())))), 1);
 }
